@@ -860,11 +860,10 @@ Qed.
    soundness   every range verify_base64 returns is an occurrence in the sense of
                Modifiers.b64_occ_at (for some number 0..2 of bytes after the text):
                PROVED for the ascii encoding (PipelineB64Proofs.
-               pipeline_base64_sound_ascii_partial) and, for data without '=', for the
-               wide encoding (pipeline_base64_sound_wide_partial); REFUTED for the wide
-               encoding otherwise (pipeline_base64_sound_wide_refuted: verify_base64 drops
-               every '=' found at an even offset of a wide window, also in the middle,
-               where the specification has no counterpart; replayed: a known finding);
+               pipeline_base64_sound_ascii_partial) and for the wide encoding
+               (pipeline_base64_sound_wide; before commit b2a39c9f verify_base64 dropped
+               every '=' found at an even offset of a wide window, also in the middle, and
+               the statement only held for data without '=': the weaker statement below);
    completeness every occurrence whose window is a whole number of 4-character
                groups inside the data is found through the atom: PROVED for both
                encodings under the side conditions the statement below omits -- a proper
